@@ -12,11 +12,18 @@
 
    double arguments are dval = option Q (None = NaN); C int arguments are Z; arrays are lists whose
    length is the length the C code reads.  Outcomes are those of LV.Err.ErrBase: Direct E_INVAL for
-   an invalid handle (no report), Via c for a report through _vnacal_error / _vnadata_error. *)
+   a NULL handle (no report) when the C function tests it before dereferencing it (gen_handle_<f>,
+   read from the C text; Fault otherwise), Via c for a report through _vnacal_error / _vnadata_error.
+
+   Section variables (they stand for things outside this model and are ordinary premises):
+     valid h      _vnacal_get_parameter(vcp, h) != NULL and the frequency range of the parameter fits
+     unknown h    the parameter has type VNACAL_UNKNOWN
+     work         the abstracted mutation of a call that passed its checks
+     pre          an arbitrary write, used only for a function whose generated order is NOT checks-first *)
 Require Import String.
 Require Import List ZArith QArith Bool.
 Import ListNotations.
-Require Import LV.Err.ErrBase LV.Gen.ErrnoGen LV.Err.ContractModel LV.Err.RefutedModel.
+Require Import LV.Err.ErrBase LV.Gen.ErrnoGen LV.Err.OrderModel LV.Err.ContractModel LV.Err.RefutedModel.
 Open Scope Z_scope.
 
 (* ------------------------------------------------------------------ doubles *)
@@ -203,10 +210,46 @@ Definition check_new_some (valid : Z -> bool) (s : nsum) (c : ncall) : outcome :
   | NSolve k => check_solve s k
   end.
 
-(* vnp == NULL || vnp->vn_magic != VN_MAGIC: errno = EINVAL, -1, no report *)
+(* the C function behind each call: order of events, handle tests (every vnacal_new_add_* wrapper
+   tests the handle and hands the arguments to _vnacal_new_add_common) *)
+Definition ncall_order (c : ncall) : list ev :=
+  match c with
+  | NSetFv _ _ => gen_order_vnacal_new_set_frequency_vector
+  | NSetZ0 => gen_order_vnacal_new_set_z0
+  | NAdd _ => gen_order_vnacal_new_add_common
+  | NSetMError _ _ _ _ _ _ _ _ => gen_order_vnacal_new_set_m_error
+  | NSetPvalue _ => gen_order_vnacal_new_set_pvalue_limit
+  | NSetEtTol _ => gen_order_vnacal_new_set_et_tolerance
+  | NSetPTol _ => gen_order_vnacal_new_set_p_tolerance
+  | NSetIter _ => gen_order_vnacal_new_set_iteration_limit
+  | NSolve _ => gen_order_vnacal_new_solve
+  end.
+Definition ncall_handle (c : ncall) : bool * bool :=
+  match c with
+  | NSetFv _ _ => gen_handle_vnacal_new_set_frequency_vector
+  | NSetZ0 => gen_handle_vnacal_new_set_z0
+  | NAdd _ => gen_handle_vnacal_new_add_common
+  | NSetMError _ _ _ _ _ _ _ _ => gen_handle_vnacal_new_set_m_error
+  | NSetPvalue _ => gen_handle_vnacal_new_set_pvalue_limit
+  | NSetEtTol _ => gen_handle_vnacal_new_set_et_tolerance
+  | NSetPTol _ => gen_handle_vnacal_new_set_p_tolerance
+  | NSetIter _ => gen_handle_vnacal_new_set_iteration_limit
+  | NSolve _ => gen_handle_vnacal_new_solve
+  end.
+
+(* the argument checks of the call precede its first write.  vnacal_new_solve has one argument check
+   (the frequency vector was given); everything behind it is work whose failures are "late". *)
+Definition ncall_ordered (c : ncall) : bool :=
+  match c with
+  | NSolve _ => match gen_order_vnacal_new_solve with EvH :: EvC :: _ => true | _ => false end
+  | _ => checks_first (ncall_order c)
+  end.
+
+(* vnp == NULL: errno = EINVAL, -1, no report (None is the NULL pointer only; vnacal_new_solve does
+   not test vn_magic, the others do: gen_handle_<f>) *)
 Definition check_new (valid : Z -> bool) (h : option nsum) (c : ncall) : outcome :=
   match h with
-  | None => Refuse VM1 (Direct E_INVAL)
+  | None => if fst (ncall_handle c) then Refuse VM1 (Direct E_INVAL) else Fault
   | Some s => check_new_some valid s c
   end.
 
@@ -218,16 +261,47 @@ Definition new_math_refusal (c : ncall) (r : report) : Prop :=
   | _, _ => False
   end.
 
+
+(* A step of the vnacal_new_t: the argument checks, then the work - when the generated order of the C
+   function allows this reading (ncall_ordered); the result of the machine distinguishes a refusal by
+   an argument check (MRefused) from a failure inside the work (MLate):
+     NSolve (Some k)  the numeric kernels ran and reported category k: whatever they wrote stays (the
+                      model says nothing about the object then; property C20 does)
+     NAdd a           the registration of the parameters of the S matrix, in the order found in the C
+                      text (add_standard_current): it cannot refuse when the validation pass precedes it *)
 Section NewStep.
   Variable payload : Type.
   Record nobj : Type := mknobj { no_sum : nsum; no_rest : payload }.
   Variable valid : Z -> bool.
+  Variable unknown : Z -> bool.
   Variable work : nobj -> ncall -> nobj.       (* the abstracted mutation (copying vectors, linking ...) *)
-  Definition new_step (o : nobj) (c : ncall) : nobj * outcome :=
-    match check_new_some valid (no_sum o) c with
-    | Pass => (work o c, Pass)
-    | r => (o, r)
+  Variable pre : nobj -> nobj.
+
+  Definition arg_check (c : ncall) (o : nobj) : option refusal :=
+    match c with
+    | NSolve _ => if negb (v_fvalid (no_sum o)) then Some (VM1, Via USAGE) else None
+    | _ => match check_new_some valid (no_sum o) c with Refuse v r => Some (v, r) | _ => None end
     end.
+
+  Definition set_params (o : nobj) (p : newsum) : nobj :=
+    let s := no_sum o in
+    mknobj (mknsum (v_type s) (v_rows s) (v_cols s) (v_freqs s) (v_fvalid s) (v_merror s) p) (no_rest o).
+
+  Definition new_work (c : ncall) (o : nobj) : nobj * option refusal :=
+    match c with
+    | NSolve (Some k) => (work o c, Some (VM1, Via k))
+    | NAdd a =>
+        match add_standard_current valid unknown (v_params (no_sum o)) (aa_cells a) with
+        | (p', Refuse v r) => (set_params o p', Some (v, r))     (* goto out: what was registered stays *)
+        | (p', _) => (work (set_params o p') c, None)
+        end
+    | _ => (work o c, None)
+    end.
+
+  Definition new_body (c : ncall) : list (act nobj) := two_phase (ncall_ordered c) pre (arg_check c) (new_work c).
+  Definition new_run (o : nobj) (c : ncall) : nobj * mres := run (new_body c) o.
+  Definition new_step (o : nobj) (c : ncall) : nobj * outcome :=
+    let (o', m) := new_run o c in (o', outcome_of m).
 End NewStep.
 
 (* ------------------------------------------------------------------ parameter family *)
@@ -310,19 +384,42 @@ Definition check_param_some (tb : ptable) (c : pcall) : outcome :=
       end
   end.
 
+Definition pcall_order (c : pcall) : list ev :=
+  match c with
+  | PMakeScalar => gen_order_vnacal_make_scalar_parameter
+  | PMakeVector _ _ _ => gen_order_vnacal_make_vector_parameter
+  | PMakeUnknown _ => gen_order_vnacal_make_unknown_parameter
+  | PMakeCorrelated _ _ _ _ => gen_order_vnacal_make_correlated_parameter
+  | PDelete _ => gen_order_vnacal_delete_parameter
+  | PGetValue _ _ _ => gen_order_vnacal_get_parameter_value
+  end.
+Definition pcall_handle (c : pcall) : bool * bool :=
+  match c with
+  | PMakeScalar => gen_handle_vnacal_make_scalar_parameter
+  | PMakeVector _ _ _ => gen_handle_vnacal_make_vector_parameter
+  | PMakeUnknown _ => gen_handle_vnacal_make_unknown_parameter
+  | PMakeCorrelated _ _ _ _ => gen_handle_vnacal_make_correlated_parameter
+  | PDelete _ => gen_handle_vnacal_delete_parameter
+  | PGetValue _ _ _ => gen_handle_vnacal_get_parameter_value
+  end.
+
 Definition check_param (h : option ptable) (c : pcall) : outcome :=
   match h with
-  | None => Refuse (pcall_fval c) (Direct E_INVAL)
+  | None => if fst (pcall_handle c) then Refuse (pcall_fval c) (Direct E_INVAL) else Fault
   | Some tb => check_param_some tb c
   end.
 
+(* a step on the parameter table: the checks, then the work, when the generated order is checks-first *)
 Section ParamStep.
   Variable work : ptable -> pcall -> ptable.
+  Variable pre : ptable -> ptable.
+  Definition param_body (c : pcall) : list (act ptable) :=
+    two_phase (checks_first (pcall_order c)) pre
+      (fun tb => match check_param_some tb c with Refuse v r => Some (v, r) | _ => None end)
+      (fun tb => (work tb c, None)).
+  Definition param_run (tb : ptable) (c : pcall) : ptable * mres := run (param_body c) tb.
   Definition param_step (tb : ptable) (c : pcall) : ptable * outcome :=
-    match check_param_some tb c with
-    | Pass => (work tb c, Pass)
-    | r => (tb, r)
-    end.
+    let (tb', m) := param_run tb c in (tb', outcome_of m).
 End ParamStep.
 
 (* ------------------------------------------------------------------ vnadata_convert *)
@@ -351,7 +448,7 @@ Definition check_convert_some (s : dsum) (out_null : bool) (newtype : Z) : outco
 
 Definition check_convert (h : option dsum) (out_null : bool) (newtype : Z) : outcome :=
   match h with
-  | None => Refuse VM1 (Direct E_INVAL)
+  | None => if fst gen_handle_vnadata_convert then Refuse VM1 (Direct E_INVAL) else Fault
   | Some s => check_convert_some s out_null newtype
   end.
 
